@@ -31,4 +31,13 @@ def correspondence(ctx):
                 "class X: seed=%d; tier=%r\nbad, _ = Bk.dimension_lattice(X)\nhit=[b for b in bad if b[2]==%r]\n"
                 "assert not hit, hit[0][0] + ' :: ' + hit[0][1]\n" % (C.VERIF, C.VERIF + "/tools", ctx.seed, ctx.tier, k))})
     out["ok"] = out["ok"] and not bad
+    # chains of conversions / re-embeddings with keywords on Awkward momentum arrays whose records carry raw momentum-spelled fields
+    from harness import c14
+    rb, rn = c14.raw_awkward_spellings("chain")
+    out["stats"]["raw_awkward_chain_reads"] = rn
+    for d in rb[:3]:
+        out["disagreements"].append(d[:300])
+        out["failing_inputs"].append({"key": "awkward-raw-chain:" + d.split(":")[1].strip()[:40], "what": d[:400],
+                                      "code": c14.RAW_REPLAY.replace("raw_awkward_spellings()", "raw_awkward_spellings('chain')")})
+    out["ok"] = out["ok"] and not rb
     return out
